@@ -60,6 +60,14 @@ def build_harness(ctx, race=False):
     env.pop("CGO_ENABLED_RACE", None)
     out = os.path.join(ctx.work, "icex-race" if race else "icex")
     hdir = os.path.join(VERIF, "harness")
+    if REPO != "/repo":
+        # evaluation of a scratch copy of blugelabs/ice (seeded changes): private copy of the harness module
+        hdir = os.path.join(ctx.work, "hsrc", "harness")
+        if not os.path.exists(hdir):
+            shutil.copytree(os.path.join(VERIF, "harness"), hdir)
+            shutil.copytree(os.path.join(VERIF, "refimpl"), os.path.join(ctx.work, "hsrc", "refimpl"))
+            gm = open(os.path.join(hdir, "go.mod")).read().replace("=> /repo", "=> " + REPO)
+            open(os.path.join(hdir, "go.mod"), "w").write(gm)
     gosum = os.path.join(hdir, "go.sum")
     if not os.path.exists(gosum):
         shutil.copy(os.path.join(REPO, "go.sum"), gosum)
@@ -293,9 +301,10 @@ def short(v, n=400):
 
 
 def record_violation(ctx, props, what, replay_obj):
-    os.makedirs(os.path.join(VERIF, "evidence", "replay"), exist_ok=True)
+    rdir = os.path.join(VERIF, "evidence", "replay") if REPO == "/repo" else os.path.join(VERIF, ".work", "replay-scratch")
+    os.makedirs(rdir, exist_ok=True)
     ctx.replay_n += 1
-    path = os.path.join(VERIF, "evidence", "replay", "%s-%d-%d.json" % (ctx.prop, ctx.seed, ctx.replay_n))
+    path = os.path.join(rdir, "%s-%d-%d.json" % (ctx.prop, ctx.seed, ctx.replay_n))
     with open(path, "w") as f:
         json.dump(replay_obj, f)
     pid = ctx.prop if ctx.prop in props else sorted(props)[0]
@@ -437,7 +446,9 @@ def write_evidence(ctx, level, rule, explanation=None, exhaustive=False):
     ev = dict(property_id=ctx.prop, tier=ctx.tier, seed=ctx.seed, level=level, coverage=cov,
               assumptions=ctx.assumptions, wall_s=round(time.time() - ctx.t0, 1),
               violations=len(ctx.violations), known_findings=len(ctx.known_hits))
-    with open(os.path.join(VERIF, "evidence", ctx.prop + ".json"), "w") as f:
+    # runs against a scratch copy (seeded-change evaluation) do not overwrite the committed evidence
+    dst = os.path.join(VERIF, "evidence", ctx.prop + ".json") if REPO == "/repo" else os.path.join(ctx.work, "evidence.json")
+    with open(dst, "w") as f:
         json.dump(ev, f, indent=1)
 
 
